@@ -29,6 +29,10 @@ partial def step (toks : List String) : String :=
   match toks with
   -- the bond helpers are the same model with `value_for_bond` as mapper
   | "bond" :: rest => step ("custom" :: rest)
+  -- real generic sampler: the table holds the observables on the sampled states; first the number of observables
+  | ["genbond", _T, _f, table] =>
+    let samples := if table == "-" then [] else parseTable table
+    s!"{nObs samples} {render samples}"
   | "temperbond" :: rest => step ("temper" :: rest)
   | ["custom", T, f, table] =>
     let tab := parseTable table
